@@ -412,7 +412,7 @@ func c16Pairs(c *Ctx, pr *PropertyRun, prop string, keep func(what string) bool)
 	// every ETag header read is unquoted
 	etagString := p.Func(pkgInternal, "(ETag).String")
 	for _, fn := range p.ModFns {
-		if !inLib(fn) {
+		if !inLib(fn) || (keep != nil && !keep("entity tag in headers")) {
 			continue
 		}
 		eachCall(fn, func(site ssa.CallInstruction) {
@@ -448,7 +448,7 @@ func c16Pairs(c *Ctx, pr *PropertyRun, prop string, keep func(what string) bool)
 	// status line
 	sm := p.MustFunc(r, pkgInternal, "(*Status).MarshalText")
 	su := p.MustFunc(r, pkgInternal, "(*Status).UnmarshalText")
-	if sm != nil && su != nil {
+	if sm != nil && su != nil && (keep == nil || keep("status line")) {
 		r.Role("codec-pair")
 		eu := hasUse(calleeUses(c, sm, 1), "fmt.Sprintf")
 		du := hasUse(calleeUses(c, su, 1), "strings.SplitN")
@@ -493,7 +493,10 @@ func c16Pairs(c *Ctx, pr *PropertyRun, prop string, keep func(what string) bool)
 			r.Violation("pair|entity tag quoting differs", "-", fmt.Sprintf("the entity tag is quoted differently in different places (%s): the tag announced in the ETag header and the one in DAV:getetag are two different strings for a tag with a non-ASCII character", strings.Join(names, ", ")), nil)
 		}
 	}
-	r.RequireRole("codec-pair", "etag-header-written", "etag-header-read")
+	r.RequireRole("codec-pair")
+	if keep == nil || keep("entity tag in headers") {
+		r.RequireRole("etag-header-written", "etag-header-read")
+	}
 }
 
 // decoderInputUnaltered: some string argument of the call is the decoder's
